@@ -440,12 +440,30 @@ class World:
         """id of the closure body of `parent` (any nesting, any number) whose MIR calls a callee satisfying pred; falls back to closure#0"""
         self.mir_index()
         cands = sorted(x for x in self._mir_index if x.startswith(parent + '::{closure#'))
+
+        def direct(x):
+            return any(blk['t'].get('k') == 'call' and pred(mir_callee(blk['t']) or '') for b in self.mir_bodies(x) for blk in b['blocks'])
         for x in cands:
-            for b in self.mir_bodies(x):
-                for blk in b['blocks']:
-                    t = blk['t']
-                    if t.get('k') == 'call' and pred(mir_callee(t) or ''):
-                        return x
+            if direct(x):
+                return x
+        # the closure body may have moved into a NEW helper (a function that does not exist on the reference tree): follow the calls of the parent and
+        # of its closures into such helpers
+        ref = reference_fn_ids()
+        if ref:
+            seen, front = set(), [parent] + cands
+            for _ in range(3):
+                nxt = []
+                for x in front:
+                    for b in self.mir_bodies(x):
+                        for blk in b['blocks']:
+                            c = mir_callee(blk['t']) if blk['t'].get('k') == 'call' else None
+                            if c and c not in ref and c in self._mir_index and c not in seen:
+                                seen.add(c)
+                                nxt.append(c)
+                for c in nxt:
+                    if direct(c):
+                        return c
+                front = nxt
         return parent + '::{closure#0}'
 
     def all_fns(self, crates=None):
@@ -504,6 +522,11 @@ class World:
                     self._mir_all[b['_nid']].append(b)
                     self._mirx.setdefault(b['_xid'], b)
             self._mir_index = idx
+            ref = reference_fn_ids()
+            if ref:
+                from .engines import mustcall as _mc
+                _mc.NEW_HELPERS.clear()
+                _mc.NEW_HELPERS.update({nid: bs for nid, bs in self._mir_all.items() if nid not in ref and '{closure' not in nid})
         return self._mir_index
 
     def mir_bodies(self, nid):
